@@ -372,7 +372,9 @@ pub fn emit(out: &mut Out, prop: u32, case: &OCase) {
     if case.kind >= 20 { let mut k = case.clone(); k.kind -= 20; return emit_big(out, prop, &k); }
     if case.kind >= 10 { let mut k = case.clone(); k.kind -= 10; return emit_zst(out, prop, &k); }
     let (c, r) = (case.c as usize, case.r as usize);
-    let mut t = TooDee::from_vec(c, r, case.data.clone());
+    // a slice-constructed view over a buffer with spare cells: the buffer is kept as a 1-wide array
+    let spare = case.kind == 6 && case.data.len() != c * r;
+    let mut t = if spare { TooDee::from_vec(1, case.data.len(), case.data.clone()) } else { TooDee::from_vec(c, r, case.data.clone()) };
     let base = t.data().as_ptr();
     let (s, e) = ((case.win.0 as usize, case.win.1 as usize), (case.win.2 as usize, case.win.3 as usize));
     let mut extra = vec![];
@@ -392,8 +394,9 @@ pub fn emit(out: &mut Out, prop: u32, case: &OCase) {
                 let o = if case.kind == 4 { 1 } else { 0 };
                 let (a, b) = (e.0 - s.0, e.1 - s.1); if a == 0 || b == 0 { (0, 0, 0, 0) } else { (s.0 + o, s.1 + o, a, b) } };
             let l = *line as usize;
-            if *var % 20 >= 6 { if l < nc { (0..nr).map(|y| t[(x0 + l, y0 + y)]).collect() } else { vec![] } }
-            else if l < nr { (0..nc).map(|x| t[(x0 + x, y0 + l)]).collect() } else { vec![] }
+            // (the buffer is c cells wide in every case, also when it is kept 1-wide)
+            if *var % 20 >= 6 { if l < nc { (0..nr).map(|y| t.data()[(y0 + y) * c + x0 + l]).collect() } else { vec![] } }
+            else if l < nr { (0..nc).map(|x| t.data()[(y0 + l) * c + x0 + x]).collect() } else { vec![] }
         } else { vec![] }
     };
     let before = key_line(&t);
@@ -420,10 +423,10 @@ pub fn emit(out: &mut Out, prop: u32, case: &OCase) {
     }
     out.end(&obs);
     // the same call on zero-sized elements (owned, window, slice-constructed view)
-    if matches!(case.kind, 0 | 2 | 6) && !matches!(case.op, TOp::SortFuse(..)) && case.data.len() <= 64 { emit_zst(out, prop, case); }
+    if matches!(case.kind, 0 | 2 | 6) && !spare && !matches!(case.op, TOp::SortFuse(..)) && case.data.len() <= 64 { emit_zst(out, prop, case); }
     // ... and on 328-byte elements (not copy_within: that needs Copy; not the slice / array
     // copies in their `copy_` form either: they run as `clone_`)
-    if matches!(case.kind, 0 | 2 | 6) && !matches!(case.op, TOp::SortFuse(..) | TOp::CopyWithin(..)) && case.data.len() <= 64 && (case.data.len() + case.c as usize) % 2 == 0 { emit_big(out, prop, case); }
+    if matches!(case.kind, 0 | 2 | 6) && !spare && !matches!(case.op, TOp::SortFuse(..) | TOp::CopyWithin(..)) && case.data.len() <= 64 && (case.data.len() + case.c as usize) % 2 == 0 { emit_big(out, prop, case); }
 }
 
 pub fn replay(out: &mut Out, prop: u32, inp: &[u64]) {
@@ -462,6 +465,11 @@ pub fn receivers(smax: u64, parents: &[(u64, u64)], kinds: &[u64]) -> Vec<Recv> 
             v.push(Recv { kind, c: 0, r: 0, win: (0, 0, 0, 0), nc: 0, nr: 0 });
             for c in 1..=smax { for r in 1..=smax { v.push(Recv { kind, c, r, win: (0, 0, 0, 0), nc: c, nr: r }); } }
         }
+        // ... and over slices with spare cells behind the array (fewer than a row, exactly a row, more)
+        for (c, r) in [(2u64, 2u64), (3, 2), (1, 3), (smax, 1)] { for spare in [1, c, c + 1] {
+            v.push(Recv { kind: 6, c, r, win: (spare, 0, 0, 0), nc: c, nr: r });
+        } }
+        v.push(Recv { kind: 6, c: 0, r: 0, win: (3, 0, 0, 0), nc: 0, nr: 0 });
     }
     // the only window of the empty array: a view whose stride is 0
     for &k in kinds { if k == 2 || k == 3 { v.push(Recv { kind: k, c: 0, r: 0, win: (0, 0, 0, 0), nc: 0, nr: 0 }); } }
@@ -480,7 +488,9 @@ pub fn receivers(smax: u64, parents: &[(u64, u64)], kinds: &[u64]) -> Vec<Recv> 
 }
 
 fn case(rc: &Recv, op: TOp) -> OCase {
-    OCase { kind: rc.kind, c: rc.c, r: rc.r, win: rc.win, data: plain(rc.c, rc.r), op }
+    // kind 6 (TooDeeViewMut::new over a slice): win.0 spare cells behind the cells the view needs
+    let data: Vec<u32> = if rc.kind == 6 { (0..(rc.c * rc.r + rc.win.0) as u32).collect() } else { plain(rc.c, rc.r) };
+    OCase { kind: rc.kind, c: rc.c, r: rc.r, win: rc.win, data, op }
 }
 fn idxs(dim: u64) -> Vec<u64> { (0..=dim + 1).chain([u64::MAX]).collect() }
 
@@ -588,6 +598,8 @@ pub fn gen_c15(out: &mut Out, tier: &str, _rng: &mut Rng) {
     // views whose root is empty (stride 0), and TooDeeViewMut::new over a slice
     for kind in [2, 3, 6] { recvs.push(Recv { kind, c: 0, r: 0, win: (0, 0, 0, 0), nc: 0, nr: 0 }); }
     for (c, r) in [(1, 1), (3, 2), (2, 5), (4, 4)] { recvs.push(Recv { kind: 6, c, r, win: (0, 0, 0, 0), nc: c, nr: r }); }
+    // ... and over slices with spare cells behind the array
+    for (c, r, spare) in [(3u64, 2u64, 1u64), (2, 5, 2), (4, 4, 5), (2, 3, 3)] { recvs.push(Recv { kind: 6, c, r, win: (spare, 0, 0, 0), nc: c, nr: r }); }
     for rc in recvs {
         emit(out, 15, &case(&rc, TOp::FlipRows));
         emit(out, 15, &case(&rc, TOp::FlipCols));
